@@ -172,6 +172,9 @@ class Desc:
             alts = [("elem", ("self." if fp and fp[0] == "self" else (fp[0] + "." if fp else "?.")) + ".".join(str(x) for x in (fp[2] if fp else [])))]
         elif base.get("k") == "array":
             alts = [self.of(x) for x in base["es"]]
+        elif base.get("k") == "blockexpr" and "tail" in base["b"]:
+            # the value of a block (e.g. an inlined helper that builds and returns a vector)
+            alts, filtered = self.source(base["b"]["tail"], depth + 1)
         else:
             alts = [("?", show(base)[:40])]
         for name, args, node in ms:
